@@ -305,6 +305,27 @@ def run_bound(spec):
         mult = onp.array(obj.get_multipliers())
         if not onp.all(mult >= 0):
             bad.append('get_multipliers() negative')
+        # the front end's own view, in ORIGINAL variables: scaling and invScaling are inverse to each other on every dof,
+        # get_multipliers() are the multipliers of x[idx] >= 0 for f itself (independent Lagrangian gradient), and the
+        # termination test evaluated through get_total_residual at the returned x holds
+        sca, isca = onp.array(sc) * onp.ones(n), onp.array(isc) * onp.ones(n)
+        if not onp.allclose(sca * isca, 1.0, rtol=1e-13, atol=0.0):
+            bad.append('scaling * invScaling != 1 on some dof: %r' % (sca * isca).tolist())
+        gx = onp.array(jax.grad(f)(jnp.array(x), p))
+        E = onp.zeros((len(idx), n))
+        for k_, i in enumerate(idx):
+            E[k_, i] = 1.0
+        lag = float(onp.linalg.norm(gx - E.T @ mult))
+        lim_l = float(onp.max(sca)) * rep['bound'] * 1.001 + 1e-12 * (1.0 + float(onp.linalg.norm(gx)))
+        info.update(lagr_original=lag, lagr_original_limit=lim_l)
+        if not lag <= lim_l:
+            bad.append('in original variables |grad f(x) - E^T get_multipliers()| = %r exceeds %r (max scaling x scaled KKT bound): returned multipliers are not KKT multipliers of the unscaled problem' % (lag, lim_l))
+        tr = float(onp.linalg.norm(onp.array(obj.get_total_residual(jnp.array(x)))))
+        if not tr <= tol * (1 + 1e-6) + 1e-12:
+            bad.append('get_total_residual at the returned point is %r, not below tol = %g' % (tr, tol))
+        xo = onp.array(x)[idx]
+        if not onp.all(xo >= -(tol / onp.array(obj.constraintKappa)) / sca[idx] - 1e-15):
+            bad.append('returned x violates a bound beyond tol/(kappa0*scaling): min x[idx] = %r' % float(xo.min()))
         if not quartic:
             A = onp.zeros((len(idx), n))
             for k_, i in enumerate(idx):
@@ -338,8 +359,8 @@ def bound_specs(ctx, stream, count):
     out = []
     for k in range(count):
         n = r.choice([2, 3, 4, 6])
-        out.append(dict(kind='bound', n=n, m=r.randrange(1, n + 1), seed=r.randrange(1 << 30), scaled=r.random() < 0.7,
-                        quartic=r.random() < 0.4, second=r.random() < 0.5, css=r.choice([1.0, 1.0, 10.0])))
+        out.append(dict(kind='bound', n=n, m=r.randrange(1, n + 1), seed=r.randrange(1 << 30), scaled=(k % 4 != 3),
+                        quartic=r.random() < 0.4, second=r.random() < 0.5, css=[0.1, 4.0, 1.0][k % 3]))
     return out
 
 
@@ -857,7 +878,7 @@ def correspondence(ctx, model_ok):
     jax, jnp, onp = M['jax'], M['jnp'], M['onp']
     distinct = set()
     # ---------------- L2: real end-to-end solves, theorem conclusions on the implementation's outputs
-    specs = e2e_specs(ctx, 'e2e', ctx.n(8, 60)) + bound_specs(ctx, 'bound', ctx.n(3, 20))
+    specs = e2e_specs(ctx, 'e2e', ctx.n(8, 60)) + bound_specs(ctx, 'bound', ctx.n(6, 24))
     statuses = {}
     for spec in specs:
         res = run_spec(spec)
